@@ -28,6 +28,7 @@ type prodRecord struct {
 	Batch   []*nom.DetailedMomentum // index = height (0,1 unused)
 	Ids     []types.HashHeight
 	Gossip  [][]*nom.AccountBlock // per height h: user/contract-receive blocks confirmed by momentum h (in content order)
+	Held    map[types.Hash]bool   // blocks that existed (and could be gossiped) long before the producer pooled them
 	Outcome []string
 }
 
@@ -63,6 +64,11 @@ func produce(c *xs.Ctx, hist []ops.Op) (*prodRecord, *vnode.Node) {
 		rec.Outcome = append(rec.Outcome, out)
 		snapshotHeight(p, rec)
 	}
+	rec.Held = map[types.Hash]bool{}
+	for _, b := range held[p] {
+		rec.Held[b.Hash] = true
+	}
+	delete(held, p)
 	for h := uint64(2); h <= rec.H; h++ {
 		d := p.Detailed(h)
 		rec.Batch[h] = d
@@ -237,6 +243,11 @@ func c02Histories(tier string) [][]ops.Op {
 	hs = append(hs, []ops.Op{
 		{K: "CancelGenesisFuse", A: 1}, M, M, {K: "Call", S: "fuse", A: 0, B: 1, V: 50}, M, M, {K: "Told", A: 1, B: 2, V: 4}, M,
 	})
+	// a block that exists three momentums before the producer pools it, while the plasma fused for its account changes:
+	// followers may process it at any frontier in between, or only inside its momentum
+	hs = append(hs, []ops.Op{
+		M, {K: "Thold", A: 1, B: 2, V: 4}, {K: "Call", S: "fuse", A: 0, B: 1, V: 50}, M, {K: "T", A: 0, B: 3, V: 2}, M, M, {K: "Rel"}, M, M,
+	})
 	// enumerated: every sequence of d operations from the alphabet, each followed by the confirming momentums
 	alpha := []ops.Op{
 		{K: "T", A: 0, B: 1, V: 5},
@@ -267,7 +278,34 @@ func c02Histories(tier string) [][]ops.Op {
 	return hs
 }
 
+// held: per producer node, blocks generated by "Thold" that the producer has not pooled yet
+var held = map[*vnode.Node][]*nom.AccountBlock{}
+
 func init() {
+	// "Thold": a transfer is created and signed at the current frontier (as a wallet does through another node) but does not
+	// reach the producer yet; "Rel" lets the oldest such block reach the producer by gossip (it is verified and applied
+	// against the momentum it acknowledges, whatever the producer's frontier is by then)
+	ops.Extra["Thold"] = func(n *vnode.Node, o ops.Op) string {
+		tx, err := n.Generate(&nom.AccountBlock{BlockType: nom.BlockTypeUserSend, Address: ops.Users[o.A].Address, ToAddress: ops.Users[o.B].Address,
+			TokenStandard: ops.Tokens[o.T], Amount: ops.Big(o.V)})
+		if err != nil {
+			return "err:" + err.Error()
+		}
+		held[n] = append(held[n], vnode.CloneBlock(tx.Block))
+		return "ok"
+	}
+	ops.Extra["Rel"] = func(n *vnode.Node, o ops.Op) string {
+		for _, b := range held[n] {
+			if n.Chain.GetFrontierAccountStore(b.Address).Identifier().Height >= b.Height {
+				continue // already released
+			}
+			if err, pan := n.AddAccountBlocks([]*nom.AccountBlock{vnode.CloneBlock(b)}); err != nil || pan != nil {
+				return fmt.Sprintf("err:%v %v", err, pan)
+			}
+			return "ok"
+		}
+		return "noheld"
+	}
 	// "Told": transfer that acknowledges the momentum before the frontier (lag between acknowledged momentum and frontier)
 	ops.Extra["Told"] = func(n *vnode.Node, o ops.Op) string {
 		f := n.Frontier()
@@ -320,7 +358,7 @@ func c02Units(tier string) [][3]int {
 	var u [][3]int
 	for hi := range c02Histories(tier) {
 		parts := 1
-		if hi < 5 {
+		if hi < 6 {
 			parts = 1
 		}
 		for p := 0; p < parts; p++ {
@@ -365,7 +403,7 @@ func runC02(c *xs.Ctx, r *xs.Result) {
 		}
 		t0 := time.Now()
 		hb := b
-		if hi < 5 && !c.Thorough() {
+		if hi < 6 && !c.Thorough() {
 			// the long scripted histories (6-7 momentums, a dozen gossipable blocks) get a smaller schedule space in the
 			// quick tier: batches of at most 2, one gossiped block, one restart, one warm-up, no re-delivery
 			hb = c02bounds{maxBatch: 2, gossipWin: 1, maxWarm: 1, maxRestart: 1, maxGossip: 1, maxRedeliv: 0}
@@ -443,9 +481,13 @@ func exploreSchedules(c *xs.Ctx, r *xs.Result, hist []ops.Op, b c02bounds) {
 			succ = append(succ, fAct{K: "D", J: j})
 		}
 		if count(it.acts, "G") < b.maxGossip {
-			for h := n + 1; h <= rec.H && h <= n+b.gossipWin; h++ {
-				for i := range rec.Gossip[h] {
-					if !gossiped[fmt.Sprintf("%d.%d", h, i)] {
+			for h := n + 1; h <= rec.H; h++ {
+				for i, blk := range rec.Gossip[h] {
+					// a block reaches a follower by gossip at most gossipWin momentums before the momentum that confirms it; a
+					// block its author published long before the producer pooled it ("held") at any frontier from the
+					// momentum it acknowledges on
+					inWin := h <= n+b.gossipWin || (rec.Held[blk.Hash] && blk.MomentumAcknowledged.Height <= n)
+					if inWin && !gossiped[fmt.Sprintf("%d.%d", h, i)] {
 						succ = append(succ, fAct{K: "G", H: h, I: i})
 					}
 				}
